@@ -102,7 +102,8 @@ def make_source(case):
         names = ', '.join(f"({p['n']!r}, {p['n']})" for p in lv['params'])
         src.append(f'    REC[{i}] = [{names}]')
         for w in lv.get('wraps', []):
-            src.append(f"    SynthDef.wrap(fn{w['_id']}, rates={w.get('rates')!r}, prepend={w.get('prepend') or None!r})")
+            rsrc = 'SHARED' if case.get('shared_rates') else repr(w.get('rates'))
+            src.append(f"    SynthDef.wrap(fn{w['_id']}, rates={rsrc}, prepend={w.get('prepend') or None!r})")
         if i == 0:
             src.append('    SNAP()')
         src.append('')
@@ -116,7 +117,11 @@ def run_one(case):
     ids = name_ids(case)
     rec, snap = {}, []
 
+    first = [True]
+
     def SNAP():
+        if not first[0]:
+            return
         sd = main._current_synthdef
         snap.extend(u for u in sd._children if isinstance(u, iou.AbstractControl))
     ns = {'SynthDef': sdf.SynthDef, 'REC': rec, 'SNAP': SNAP}
@@ -129,6 +134,8 @@ def run_one(case):
     top = case['top']
     if top.get('rates') is not None:
         kwargs['rates'] = json.loads(json.dumps(top['rates']))
+    # one caller-owned rates object used by the graph function and every wrapped function
+    ns['SHARED'] = kwargs.get('rates') if case.get('shared_rates') else None
     if top.get('prepend'):
         kwargs['prepend'] = list(top['prepend'])
     if case.get('specs') is not None:
@@ -136,10 +143,23 @@ def run_one(case):
                                         for k, v in case['specs'].items()}}
     if case.get('variants'):
         kwargs['variants'] = {vn: {cn: vals for cn, vals in pairs} for vn, pairs in case['variants']}
+    before = json.dumps([kwargs.get('rates'), kwargs.get('prepend'), kwargs.get('variants')], sort_keys=True)
     try:
         sd = sdf.SynthDef('c04', ns['fn0'], **kwargs)
     except Exception as e:  # noqa
         return {'exc': type(e).__name__}
+    first[0] = False
+    rec1 = dict(rec)
+    # the caller's argument objects after the build, and a second build from the very same objects
+    out['args_after'] = json.dumps([kwargs.get('rates'), kwargs.get('prepend'), kwargs.get('variants')], sort_keys=True)
+    out['args_before'] = before
+    try:
+        sd2 = sdf.SynthDef('c04', ns['fn0'], **kwargs)
+        out['rebuild_same'] = bytes(sd2.as_bytes()) == bytes(sd.as_bytes())
+    except Exception as e:  # noqa
+        out['rebuild_same'] = 'EXC:' + type(e).__name__
+    rec.clear()
+    rec.update(rec1)
     # ---- the definition bytes
     try:
         data = bytes(sd.as_bytes())
